@@ -228,6 +228,12 @@ def _c07():
         errors.append("anchor missing: the two TooLargePset caps in PartiallySignedTransaction::consensus_decode (src/pset/mod.rs)")
     if not _re.search(r'if\s+\*b"pset"\s*!=\s*magic', dec) or not _re.search(r"if\s+0xff_u8\s*!=\s*u8::consensus_decode", dec):
         errors.append("anchor missing: magic / separator checks in PartiallySignedTransaction::consensus_decode (src/pset/mod.rs)")
+    # the PSET value decoders of PedersenCommitment / Generator check the slice length before libsecp reads 33 bytes (fix 838e50c);
+    # the model's canonisers demand exactly 33 bytes
+    ser = strip_comments(src("pset/serialize.rs"))
+    for ty in ("secp256k1_zkp::PedersenCommitment", "secp256k1_zkp::Generator"):
+        if not _re.search(r"impl\s+Deserialize\s+for\s+%s\s*\{\s*fn\s+deserialize\(bytes:\s*&\[u8\]\)\s*->\s*Result<Self,\s*encode::Error>\s*\{\s*if\s+bytes\.len\(\)\s*!=\s*33\s*\{\s*return\s+Err" % _re.escape(ty), ser):
+            errors.append("anchor missing: `if bytes.len() != 33 { return Err` at the head of `impl Deserialize for %s` in src/pset/serialize.rs (F18: the slice length must be checked before libsecp reads 33 bytes)" % ty)
     v = const("locktime.rs", "LOCK_TIME_THRESHOLD")
     if v is not None:
         defN("C07_LOCK_TIME_THRESHOLD", rust_int(v))
